@@ -182,6 +182,7 @@ class Case:
         self.reads = []       # list of tokens
         self.fault = "none"
         self.wcap = 0         # the transport accepts at most this many bytes per write (0 = all): short writes
+        self.wzero = 0        # from this many output bytes on, write() returns Ok(0) (1 = from the first byte); 0 = never
         self.mfault = None    # fault plan for the model's twin run when its op index differs (same byte offset)
         self.scripts = []     # raw lines: "q ...", "p ...", "x ...", "i ..."
         self.meta = {}        # free-form information for oracles / evidence (not written)
@@ -205,7 +206,7 @@ class Case:
 
     def render(self):
         L = ["case %s" % self.id,
-             "cfg lim=%d tls=%d auth=%s dinit=%d" % (self.lim, self.tls, self.auth, self.dinit) + (" wcap=%d" % self.wcap if self.wcap else ""),
+             "cfg lim=%d tls=%d auth=%s dinit=%d" % (self.lim, self.tls, self.auth, self.dinit) + (" wcap=%d" % self.wcap if self.wcap else "") + (" wzero=%d" % self.wzero if self.wzero else ""),
              "reads " + " ".join(self.reads), "fault " + self.fault]
         if self.mfault:
             L.append("mfault " + self.mfault)
